@@ -1,8 +1,50 @@
 import CnlDriver.CS
-/-! `C08` driver table (stub). -/
+import CnlModel.Layered
+import CnlSpec.Rounding
+/-! `C08` table: rounding_integer operators over built-in representations. -/
 namespace Cnl.Drv
-open Cnl
+open Cnl Cnl.Spec
 
-def checkC08 (_toks : List String) (_res : String) : Option Verdict := none
+def modeOf : RdMode → RoundMode
+  | .nat => .truncate | .nrst => .nearestAway | .tpi => .nearestUp | .ninf => .floor
+
+/-- `C08 bin <op> <mode> <L> <R> <l> <r>` : `rounding_integer<L,mode> op rounding_integer<R,mode>` -/
+def checkC08 (toks : List String) (res : String) : Option Verdict :=
+  match toks with
+  | ["bin", ops, mode, lt, rt, l, r] => do
+    let op ← parseBinOp ops; let mode ← parseRdMode mode; let L ← parseIntTy lt; let R ← parseIntTy rt
+    let l ← l.toInt?; let r ← r.toInt?
+    let x : Num := (.rd (.int L) mode, l); let y : Num := (.rd (.int R) mode, r)
+    let m := Layered.bin op x y
+    let T := usualArith L R
+    -- the property speaks of the exact rational l / r of the operand values
+    let a := l; let b := r
+    let spec : Option Bool :=
+      match op with
+      | .div =>
+        if b == 0 then none
+        else if T.wrap l != l || T.wrap r != r then
+          -- a conversion of the usual arithmetic conversions changes an operand's value: only the
+          -- built-in (native) behaviour is specified
+          (if mode == .nat then
+            match cBin op (L, l) (R, r) with
+            | .ok v => some (res == s!"rd({v.1.toString},{mode.toString}):{v.2}")
+            | _ => none
+           else none)
+        else
+        let q := roundDiv (modeOf mode) a b
+        if T.inRange q then some (res == s!"rd({T.toString},{mode.toString}):{q}") else none
+      | _ =>
+        -- every other operator behaves exactly like the built-in one
+        match cBin op (L, l) (R, r) with
+        | .ok v => some (res == s!"rd({v.1.toString},{mode.toString}):{v.2}")
+        | _ => none
+    let tie := op == .div && b != 0 && (2 * (a.tmod b)).natAbs == b.natAbs
+    let nearLimit := (2 * a.natAbs + b.natAbs : Int) > 2 * T.max
+    let cls := ""
+    some { model := showRes showNum m, spec := spec, cls := cls,
+           branch := ops ++ "/" ++ mode.toString ++ (if tie then "/tie" else "") ++ (if nearLimit && op == .div then "/nearlimit" else ""),
+           nontrivial := spec.isSome }
+  | _ => none
 
 end Cnl.Drv
